@@ -201,14 +201,82 @@ def struct_op(c):
     return ops.Triangular(D, lower=c["lower"])
 
 
+# un-annotated operators whose matrix has a special structure that is NOT the annotated one (nothing is declared: the
+# general rules must handle them): real symmetric, complex symmetric (A = A^T, not Hermitian), skew-symmetric, skew-Hermitian,
+# normal, orthogonal, triangular stored as Dense
+STRUCTURED = ["sym_unann", "cplx_sym", "cplx_sym", "skew", "skew_herm", "normal", "orth", "tri_dense"]
+
+
+def structured_matrix(rnd, g, cls, n):
+    import scipy.linalg as sl
+    if cls == "sym_unann":
+        lam = np.array(L.separated(rnd, n, signs=True))
+        Q = L.rand_unitary(g, n, False)
+        M = (Q * lam) @ Q.T
+        return (M + M.T) / 2, lam
+    if cls == "skew_herm":
+        lam = 1j * np.array(L.separated(rnd, n, signs=True))
+        Q = L.rand_unitary(g, n, True)
+        return (Q * lam) @ Q.conj().T, lam
+    if cls == "normal":
+        lam = np.array([m * np.exp(1j * rnd.uniform(-3.1, 3.1)) for m in L.separated(rnd, n)])
+        Q = L.rand_unitary(g, n, True)
+        return (Q * lam) @ Q.conj().T, lam
+    if cls in ("skew", "orth"):
+        mags = L.separated(rnd, n)
+        blocks, lam, i = [], [], 0
+        while i < n:
+            if i + 1 < n:
+                if cls == "skew":
+                    mu = mags[i]
+                    blocks.append(np.array([[0., -mu], [mu, 0.]]))
+                    lam += [1j * mu, -1j * mu]
+                else:
+                    t = rnd.uniform(0.3, 2.8)
+                    blocks.append(np.array([[np.cos(t), -np.sin(t)], [np.sin(t), np.cos(t)]]))
+                    lam += [np.exp(1j * t), np.exp(-1j * t)]
+                i += 2
+            else:
+                v = 0.0 if cls == "skew" else float(rnd.choice([-1, 1]))
+                blocks.append(np.array([[v]]))
+                lam.append(v)
+                i += 1
+        Q = L.rand_unitary(g, n, False)
+        return Q @ sl.block_diag(*blocks) @ Q.T, np.array(lam)
+    if cls == "tri_dense":
+        cp = rnd.random() < 0.3
+        d = np.array(L.separated(rnd, n, signs=True), dtype=np.complex128 if cp else np.float64)
+        if cp:
+            d = d * np.exp(1j * np.array([rnd.uniform(-3, 3) for _ in range(n)]))
+        T_ = np.triu(0.4 * (g.standard_normal((n, n)) + (1j * g.standard_normal((n, n)) if cp else 0)), 1) + np.diag(d)
+        return (T_.T.copy() if rnd.random() < 0.5 else T_), d
+    # complex symmetric: S1 + i S2 with real symmetric S1, S2; spectrum from numpy, accepted when simple, separated, well conditioned
+    for _ in range(200):
+        S1 = g.standard_normal((n, n))
+        S2 = g.standard_normal((n, n))
+        M = (S1 + S1.T) / 2 + 1j * (S2 + S2.T) / 2
+        lam, V = np.linalg.eig(M)
+        mags = np.sort(np.abs(lam))
+        if np.linalg.cond(V) < 50 and mags[0] > 0.2 and (n == 1 or np.min(mags[1:] / mags[:-1]) > 1.2):
+            return M, lam
+    lam = np.array(L.separated(rnd, n)) * np.exp(1j * np.array([rnd.uniform(-3, 3) for _ in range(n)]))
+    return np.diag(lam).astype(np.complex128) + 0j, lam     # diagonal complex symmetric fallback
+
+
 def gen_dense(rnd, present, nmax, force_pairs=False):
     """operators with a prescribed simple, well-separated spectrum; returns the case (matrix parts as arrays)"""
     g = L.nprng(rnd)
-    cls = rnd.choice(["sa_def", "sa_indef", "sa_indef", "gen_real", "gen_real", "gen_cplx", "sa_cplx"])
+    cls = rnd.choice(["sa_def", "sa_indef", "sa_indef", "gen_real", "gen_real", "gen_cplx", "sa_cplx"] + STRUCTURED)
     n = rnd.randint(2, nmax)
     if force_pairs:
         cls, n = "gen_real", max(n, 3)
     f32 = rnd.random() < 0.15
+    if cls in STRUCTURED:
+        M, lam = structured_matrix(rnd, g, cls, n)
+        cplx = np.iscomplexobj(M)
+        dt = ("complex64" if f32 else "complex128") if cplx else ("float32" if f32 else "float64")
+        wrap = rnd.choice(["Dense", "Dense", "Dense", "Sum2", "Prod2", "Kron1", "Transp"])
+        return dict(kind="dense", cls=cls, n=n, dt=dt, M=M.astype(getattr(np, dt)), lam=lam, sa=False, wrap=wrap, seed=rnd.getrandbits(30))
     if cls in ("sa_def", "sa_indef", "sa_cplx"):
         lam = np.array(L.separated(rnd, n, signs=(cls != "sa_def")))
         if cls == "sa_cplx" and rnd.random() < 0.5:
@@ -284,7 +352,7 @@ def conj_pair_split(lam, k, which):
     if k >= n:
         return False
     a, b = (mags[n - k - 1], mags[n - k]) if which == "LM" else (mags[k - 1], mags[k])
-    return abs(a - b) <= 1e-6 * max(1.0, b)
+    return abs(a - b) <= 1e-6 * b
 
 
 def choose_alg(rnd, c, present):
@@ -328,11 +396,18 @@ def power_case(rnd, nmax, present=()):
         M = S @ np.diag(lam) @ np.linalg.inv(S)
     if not cplx:
         M = M.real
+    # overall scale of the operator, tiny to huge, and single precision: the stopping test is relative, so the answer must be scale-covariant
+    f32 = rnd.random() < 0.2
+    sc_ = 1.0
+    if rnd.random() < 0.6:
+        sc_ = 10.0 ** rnd.uniform(-12, 12)
+        M, lam = M * sc_, lam * sc_
     how = rnd.choice(["auto", "auto", "alg", "alg", "eigmax", "call"])
     kw = {}
     if how in ("alg", "call", "eigmax") and rnd.random() < 0.7:
         kw = rnd.choice([dict(tol=1e-3), dict(tol=1e-10, max_iter=400), dict(max_iter=3), dict(max_iter=1), dict(tol=1e-8, max_iter=100), dict(tol=0.5)])
-    return dict(kind="power", n=n, dt="complex128" if cplx else "float64", M=M, lam=lam, sa=sa, how=how, kwargs=kw, wrap="Dense", seed=0, cplx=cplx)
+    dt = ("complex64" if cplx else "float32") if f32 else ("complex128" if cplx else "float64")
+    return dict(kind="power", n=n, dt=dt, M=M.astype(getattr(np, dt)), lam=lam, sa=sa, how=how, kwargs=kw, wrap="Dense", seed=0, cplx=cplx, f32=f32, scale=sc_)
 
 
 def rayleigh_all_positive(M, v0, steps=1200):
@@ -402,7 +477,7 @@ def check_property(D, w, V, k, which, sa_orth, lam_true, tol, check_sel=True):
     w = np.asarray(w).reshape(-1)
     if w.shape[0] != k or V.shape != (n, k):
         return [f"shape: {w.shape[0]} values, vectors {V.shape}, expected {k} and {(n, k)}"], False
-    scale = max(1.0, float(np.abs(D).max()))
+    scale = float(np.abs(D).max()) or 1.0
     cn = np.linalg.norm(V, axis=0)
     if k == 0:
         return [], False
@@ -549,7 +624,17 @@ def run(ctx):
         eff = effective_alg(c, alg, k, which)
         if eff == "PowerIteration":
             continue   # covered by the power-iteration stream below
+        if eff in ("Eigh", "Eig") and c["cls"] != "orth" and rnd.random() < 0.3:
+            # overall scale of the operator (the dense rules must be scale-covariant; the Krylov routines' tolerances are C14 / C15's)
+            sc_ = 10.0 ** rnd.uniform(-4, 4) if c["dt"] in ("float32", "complex64") else 10.0 ** rnd.uniform(-10, 10)
+            c["M"] = (c["M"] * sc_).astype(c["M"].dtype)
+            c["lam"] = np.asarray(c["lam"]) * sc_
+            c["wrap"] = "Dense"
+            c["scale"] = sc_
+            bump(hist, "scaled_dense_rule")
         lam_true = c["lam"]
+        if c["cls"] == "orth":
+            k = n
         if conj_pair_split(lam_true, k, which):
             near_tie += 1
             continue
@@ -605,7 +690,7 @@ def run(ctx):
         bad = []
         if full:
             # hypotheses of the theorems, checked on the oracle's actual output
-            scale = max(1.0, float(np.abs(D).max()))
+            scale = float(np.abs(D).max()) or 1.0
             r_or = float(np.abs(Dimpl @ oV - oV * ow[None, :]).max())
             hyp_ok = r_or <= tol * scale and np.linalg.norm(oV, axis=0).min() > 1e-8
             if eff == "Eigh":
@@ -624,7 +709,7 @@ def run(ctx):
                 # all Ritz pairs were requested: Galerkin condition - the residual A V - V diag(w) is orthogonal to span(V)
                 Rr = D @ V - V * np.asarray(w)[None, :]
                 gal = float(np.abs(np.linalg.pinv(V) @ Rr).max())
-                if not (gal <= max(tol, 1e-7) * max(1.0, float(np.abs(D).max())) * max(1.0, float(np.linalg.cond(V)))):
+                if not (gal <= max(tol, 1e-7) * (float(np.abs(D).max()) or 1.0) * max(1.0, float(np.linalg.cond(V)))):
                     bad.append(f"Ritz pairs violate the Galerkin condition: |V^+ (A V - V diag w)| = {gal:.3g}")
                 galerkin_checked[0] += 1
         if bad:
@@ -680,13 +765,15 @@ def run(ctx):
                 bump(skipped_region, "power_iteration_negative_eig")
                 continue
         evals += 1
-        bump(hist, "power:" + c["how"] + (":complex" if c["cplx"] else "") + (":negative" if np.real(c["lam"][0]) < 0 else ""))
+        bump(hist, "power:" + c["how"] + (":complex" if c["cplx"] else "") + (":negative" if np.real(c["lam"][0]) < 0 else "") + (":f32" if c["f32"] else ""))
+        if c["scale"] != 1.0:
+            bump(hist, "power:scale:1e%+03d" % (3 * int(np.floor(np.log10(c["scale"]) / 3))))
         A = ops.Dense(c["M"])
         if c["sa"]:
             A = cola.SelfAdjoint(A)
         kw = c["kwargs"]
         tolv, maxit = kw.get("tol", 1e-6), kw.get("max_iter", 100)
-        case_js = dict(kind="power", n=n, sa=c["sa"], how=c["how"], kwargs=kw, M=c["M"].tolist() if not c["cplx"] else [[str(x) for x in r] for r in c["M"]])
+        case_js = dict(kind="power", n=n, dt=c["dt"], scale=c["scale"], sa=c["sa"], how=c["how"], kwargs=kw, M=c["M"].tolist() if not c["cplx"] else [[str(x) for x in r] for r in c["M"]])
         distinct.add(core.digest(case_js))
         try:
             v_ref, e_ref, info = PowerIteration(**kw)(A)
@@ -719,7 +806,7 @@ def run(ctx):
             if not (abs(e - lam1) <= 1e-3 * abs(lam1)):
                 bad.append(f"value {e} is not the dominant eigenvalue {lam1} (stopped by tolerance after {iters} steps)")
             vv = np.asarray(v) / np.linalg.norm(v)
-            r = float(np.abs(c["M"] @ vv - e * vv).max())
+            r = float(np.abs(c["M"].astype(np.complex128) @ vv.astype(np.complex128) - complex(e) * vv).max())
             if not (r <= 5e-2 * abs(lam1) / (1 if c["sa"] else 1)):
                 bad.append(f"residual {r:.3g}")
         if iters > maxit:
@@ -727,7 +814,11 @@ def run(ctx):
         if bad:
             oracle_viol.append(("p", len(pmeta) + len(pcmeta)))
         pfl = f"(mkpflags {'false' if 'power_iteration_negative_eig' in present else 'true'} {'false' if 'power_iteration_complex_no_conj' in present else 'true'})"
-        if c["cplx"]:
+        if c["f32"]:
+            # the Coq model computes in binary64: single-precision runs are judged by the oracle alone
+            if bad:
+                mism.append(dict(oracle_fail=True, case=case_js, got=dict(eig=str(e), iterations=iters), failed_clauses=bad))
+        elif c["cplx"]:
             cf = lambda z: f"({L.hexf(complex(z).real)}, {L.hexf(complex(z).imag)})"
             cv = lambda a: "[" + ";".join(cf(z) for z in np.asarray(a).reshape(-1)) + "]"
             cm = lambda a: "[" + ";".join(cv(r_) for r_ in np.asarray(a)) + "]"
